@@ -46,7 +46,7 @@ def main():
     rep = driver.Report(a.pid, a.tier, seed, repo)
     ledger = driver.load_ledger()
     known = driver.load_known()
-    timeout_ms = 45000 if a.tier == "quick" else 120000
+    timeout_ms = 60000 if a.tier == "quick" else 120000
     try:
         mods = [(modname, importlib.import_module(modname)) for modname in cfg["modules"]]
         pairs = []
